@@ -475,8 +475,26 @@ def setup(ctx):
     if not ok:
         problems.append(lg)
         return problems, None
-    wd = os.path.join(SCRATCH, "build", repo.tree_hash(), "c14_models_%d_%s_%d" % (ctx.seed, ctx.tier, os.getpid()))
-    os.makedirs(wd, exist_ok=True)
+    # run-private directory outside the tree-keyed build cache: other checks prune that cache (vlib.repo._prune) while
+    # this one is still running, so everything used during the run is copied here first
+    import shutil
+    wd = os.path.join(SCRATCH, "c14-run-%d_%s_%d" % (ctx.seed, ctx.tier, os.getpid()))
+    shutil.rmtree(wd, ignore_errors=True)
+    os.makedirs(os.path.join(wd, "bin"))
+    os.makedirs(os.path.join(wd, "ext"))
+    try:
+        for t in ("query", "build_binary", "lmplz"):
+            shutil.copy2(os.path.join(bindir, t), os.path.join(wd, "bin", t))
+        bindir = os.path.join(wd, "bin")
+        shutil.copy2(os.path.join(extdir, "kenlm.so"), os.path.join(wd, "ext", "kenlm.so"))
+        extdir = os.path.join(wd, "ext")
+        if hexe:
+            shutil.copy2(hexe, os.path.join(wd, "bin", "c14_harness"))
+            hexe = os.path.join(wd, "bin", "c14_harness")
+    except OSError as ex:
+        problems.append("build products disappeared while being copied (cache pruned by a concurrent check?): %s" % ex)
+        shutil.rmtree(wd, ignore_errors=True)
+        return problems, None
     env = Env()
     env.dexe, env.hexe, env.extdir, env.bindir, env.wd, env.known = dexe, hexe, extdir, bindir, wd, ctx.known
     return problems, env
